@@ -287,7 +287,13 @@ func c06run(out *rec.Out, c c06case, rng *rec.Rng, stats map[string]int) {
 			losers = append(losers, j)
 		}
 	}
-	for i := 0; i < c06lateDeliveries; i++ {
+	// A stuck catch node only shows once its inbox is full: the single-event cases probe that (6 late deliveries);
+	// the others stay below the inbox capacity (4 deliveries after the first one in total).
+	late := 5 - len(c.seq)
+	if len(c.seq) == 1 {
+		late = c06lateDeliveries
+	}
+	for i := 0; i < late; i++ {
 		quiesce()
 		if !deliver(losers[i%len(losers)]) {
 			break
